@@ -178,6 +178,8 @@ def plan(tier):
                  must_reach=['exact-sound', 'exact-complete', 'order-independent', 'raise-only-if-impossible']),
             dict(name='exact-K3-names1', fn='h_exact', depth=8, budget_s=240, cfg=dict(K=3, names=1),
                  bounds='<=3 named parameters, num_args 0..len+2, <=1 name', min_nontrivial=300),
+            dict(name='exact-K4-names0', fn='h_exact', depth=9, budget_s=240, cfg=dict(K=4, names=0),
+                 bounds='<=4 named parameters, num_args 0..len+2, no names', min_nontrivial=300),
             dict(name='laws-K3', fn='h_laws', depth=8, budget_s=240, cfg=dict(K=3),
                  bounds='<=3 named parameters, n and m symbolic in 0..len+2', min_nontrivial=300,
                  must_reach=['mask(s,0)=s', 'compose-same-params']),
